@@ -172,6 +172,71 @@ impl log::Log for Capture {
 }
 static CAPTURE: Capture = Capture;
 
+//------------ the binary itself as the rsync command ----------------------------------
+
+static SELF_RSYNC: std::sync::atomic::AtomicBool = std::sync::atomic::AtomicBool::new(false);
+const CHILD_ENV: &str = "RPKIGEN_ACT_AS_RSYNC";
+
+/// Call this **first thing in `main()`** of a binary that runs worlds.
+///
+/// Routinator starts its rsync command once per module (and once with `-h` per engine).  With
+/// this call the running binary itself is used as that command (one process per fetch instead
+/// of `sh` + `rsync`): in the parent the function only registers the fact and returns; in a
+/// child started by Routinator (recognised by an environment variable the parent sets) it
+/// performs the copy `<dir>/served/<host>/<module>/` -> destination and exits.
+/// Without the call `World` falls back to the shell script `<dir>/fake-rsync.sh`.
+pub fn act_as_rsync_if_child() {
+    if std::env::var_os(CHILD_ENV).is_none() {
+        std::env::set_var(CHILD_ENV, "1");
+        SELF_RSYNC.store(true, std::sync::atomic::Ordering::SeqCst);
+        return
+    }
+    let args: Vec<String> = std::env::args().skip(1).collect();
+    if args.first().map(|a| a == "-h" || a == "--help" || a == "--version").unwrap_or(true) {
+        println!("rpkigen fake rsync");
+        std::process::exit(0);
+    }
+    std::process::exit(fake_rsync(&args));
+}
+
+/// `[args..] rsync://host/module/ <dir>/cache/rsync/host/module/`
+fn fake_rsync(args: &[String]) -> i32 {
+    if args.len() < 2 { eprintln!("fake rsync: too few arguments"); return 2 }
+    let (src, dst) = (&args[args.len() - 2], &args[args.len() - 1]);
+    let rel = match src.strip_prefix("rsync://") { Some(r) => r, None => { eprintln!("fake rsync: bad source '{}'", src); return 2 } };
+    let pos = match dst.find("/cache/rsync/") { Some(p) => p, None => { eprintln!("fake rsync: unexpected destination '{}'", dst); return 2 } };
+    let base = Path::new(&dst[..pos]);
+    {
+        use std::io::Write;
+        if let Ok(mut f) = std::fs::OpenOptions::new().create(true).append(true).open(base.join("fetch.log")) {
+            let _ = writeln!(f, "{}", rel);
+        }
+    }
+    let from = base.join("served").join(rel);
+    if !from.is_dir() { eprintln!("fake rsync: cannot reach {}", src); return 10 }
+    let to = Path::new(dst);
+    fn clear(dir: &Path) -> std::io::Result<()> {
+        for e in std::fs::read_dir(dir)? {
+            let p = e?.path();
+            if p.is_dir() { std::fs::remove_dir_all(&p)?; } else { std::fs::remove_file(&p)?; }
+        }
+        Ok(())
+    }
+    fn copy(from: &Path, to: &Path) -> std::io::Result<()> {
+        std::fs::create_dir_all(to)?;
+        for e in std::fs::read_dir(from)? {
+            let e = e?;
+            let (p, t) = (e.path(), to.join(e.file_name()));
+            if p.is_dir() { copy(&p, &t)?; } else { std::fs::copy(&p, &t)?; }
+        }
+        Ok(())
+    }
+    match std::fs::create_dir_all(to).and_then(|_| clear(to)).and_then(|_| copy(&from, to)) {
+        Ok(()) => 0,
+        Err(e) => { eprintln!("fake rsync: {}", e); 11 }
+    }
+}
+
 //------------ the world -------------------------------------------------------------
 
 /// A built world placed in a scratch directory:
@@ -298,7 +363,11 @@ impl World {
         c.no_rir_tals = true;
         c.extra_tals_dir = Some(self.tal_dir());
         c.disable_rrdp = true;
-        c.rsync_command = self.script_path().display().to_string();
+        c.rsync_command = if SELF_RSYNC.load(std::sync::atomic::Ordering::SeqCst) && std::env::var_os("RPKIGEN_USE_SCRIPT").is_none() {
+            std::env::current_exe().map(|p| p.display().to_string()).unwrap_or_else(|_| self.script_path().display().to_string())
+        } else {
+            self.script_path().display().to_string()
+        };
         c.rsync_args = Some(Vec::new());
         c.rsync_timeout = Some(std::time::Duration::from_secs(60));
         c.strict = cfg.strict;
@@ -335,7 +404,10 @@ impl World {
             None => LocalExceptions::empty(),
             Some(text) => LocalExceptions::from_json(text, false).expect("SLURM text"),
         };
-        match Engine::new(&config, !cfg.no_update) {
+        let timing = std::env::var_os("RPKIGEN_TIMING").is_some();
+        let engine = Engine::new(&config, !cfg.no_update);
+        if timing { eprintln!("rpkigen timing: Engine::new {} ms", start.elapsed().as_millis()); }
+        match engine {
             Err(_) => out.result = "engine: Engine::new failed".into(),
             Ok(mut engine) => {
                 if engine.ignite().is_err() { out.result = "engine: ignite failed".into(); }
@@ -357,7 +429,9 @@ impl World {
             }
         }
         out.millis = start.elapsed().as_millis() as u64;
+        if timing { eprintln!("rpkigen timing: run total {} ms", out.millis); }
         out.store = self.store_listing();
+        if timing { eprintln!("rpkigen timing: with store listing {} ms", start.elapsed().as_millis()); }
         if let Ok(text) = std::fs::read_to_string(self.dir.join("fetch.log")) {
             out.fetched = text.lines().map(|l| l.trim_end_matches('/').to_string()).collect();
         }
